@@ -116,11 +116,11 @@ type C18Trace struct {
 }
 
 var c18Ops = []string{"new", "newwith", "newbatch", "newbatchq", "add", "assign", "remove", "addbatch", "addbatchq", "rembatch", "rembatchq",
-	"rmentities", "get", "bg-new", "bg-xchg", "bg-rm", "bg-setrel", "map1", "exchange", "filter", "resource", "lockedop"}
-var c18Weights = []int{10, 6, 4, 4, 10, 6, 8, 4, 4, 4, 3, 2, 10, 10, 8, 5, 5, 8, 8, 14, 3, 6}
+	"rmentities", "get", "bg-new", "bg-xchg", "bg-rm", "bg-setrel", "map1", "exchange", "filter", "resource", "lockedop", "bg-reg"}
+var c18Weights = []int{10, 6, 4, 4, 10, 6, 8, 4, 4, 4, 3, 2, 10, 10, 8, 5, 5, 8, 8, 14, 3, 6, 3}
 
 // c18LockedWeights: the profile used by the C09 check (generic structural entry points on a locked world).
-var c18LockedWeights = []int{6, 3, 2, 2, 6, 3, 4, 2, 2, 2, 2, 1, 3, 10, 6, 3, 3, 3, 4, 2, 1, 40}
+var c18LockedWeights = []int{6, 3, 2, 2, 6, 3, 4, 2, 2, 2, 2, 1, 3, 10, 6, 3, 3, 3, 4, 2, 1, 40, 1}
 
 func GenC18Trace(seed uint64, thorough bool) *C18Trace { return genC18Trace(seed, thorough, false) }
 
@@ -935,6 +935,24 @@ func (r *c18Run) doStep(st *Step) *Violation {
 		tg, _ := r.pick(c)
 		v, _ := r.both("Relations.Set (background)", func() { G.Relations().Set(e, r.G.ids[c18RelA], tg) }, func() { K.Relations().Set(e, r.K.ids[c18RelA], tg) })
 		return v
+	case "bg-reg":
+		// a type nobody has named yet is registered directly (not through a filter builder): filter objects compiled
+		// before must take it into account when they are used again
+		for i := 0; i < 12; i++ {
+			t := (c.n(12) + i) % 12
+			if r.G.reg[t] || r.K.reg[t] {
+				continue
+			}
+			var gid, kid ecs.ID
+			v, p := r.both("TypeID (late type)", func() { gid = ecs.TypeID(G, c18Types[t]) }, func() { kid = ecs.TypeID(K, c18Types[t]) })
+			if v != nil || p {
+				return v
+			}
+			r.G.ids[t], r.G.reg[t] = gid, true
+			r.K.ids[t], r.K.reg[t] = kid, true
+			r.stats["type-registered-late-directly"]++
+			break
+		}
 	case "lockedop":
 		return r.opLocked(c)
 	case "map1":
@@ -1498,6 +1516,14 @@ func (r *c18Run) opResource(c *cursor) *Violation {
 	if gr.ID() != ecs.ResourceID[C18Res](G) {
 		return r.viol("Resource.ID differs from ResourceID")
 	}
+	if c.n(6) == 0 {
+		// a distinct type with the same printed name, never added: its mapper must see nothing
+		if msg := sameNamedResourceProbe(G, gr.ID()); msg != "" {
+			return r.viol("%s", msg)
+		}
+	} else {
+		c.n(1)
+	}
 	val := &C18Res{V: r.vals(1)[0]}
 	switch c.n(4) {
 	case 0:
@@ -1527,4 +1553,23 @@ func (r *c18Run) opResource(c *cursor) *Violation {
 		}
 	}
 	return nil
+}
+
+// sameNamedResourceProbe: a function-local type that prints like the package-level C18Res is a different resource
+// type: own ID, never present.
+func sameNamedResourceProbe(w *ecs.World, other ecs.ResID) (msg string) {
+	type C18Res struct{ V uint64 }
+	defer func() {
+		if x := recover(); x != nil {
+			msg = fmt.Sprintf("generic.Resource of a never-added type that merely has the same name panicked: %v", x)
+		}
+	}()
+	m := generic.NewResource[C18Res](w)
+	if m.ID() == other {
+		return "two distinct resource types with the same printed name share one ID"
+	}
+	if m.Has() || m.Get() != nil {
+		return "generic.Resource reports a resource of a type that was never added (another type with the same printed name was)"
+	}
+	return ""
 }
